@@ -1,5 +1,5 @@
 """C04 — Symbolic derivatives equal the true derivatives (DESIGN.md §4 C04)."""
-import numpy, sys
+import numpy, sys, warnings
 from hypothesis import strategies as st
 from vlib.core import Sub, Violation, Discard
 from vlib import genexpr, evharness
@@ -200,7 +200,93 @@ def _frame(e):
     return '?'
 
 
-SUBS = [Sub('jacobian', cases, check, {'quick': 2500, 'thorough': 25000}, timeout=20)]
+# ---- user-defined operations (function.Custom) ---------------------------------------------------------------------------------
+
+ARGEXPR = ['x', 'y', 'x*y', 'x+1', '2*x', 'x**2', 'y-x', 'sin(x)']
+
+
+@st.composite
+def custom_cases(draw, tier):
+    kind = draw(st.sampled_from(['mulsq', 'sinmul', 'lin', 'three', 'quot', 'mulsq']))
+    n = {'three': 3}.get(kind, 2)
+    slots = [draw(st.sampled_from(ARGEXPR)) for _ in range(n)]
+    if draw(st.integers(0, 2)) == 0:
+        slots = [slots[0]] * n      # the same array in every slot
+    return dict(kind=kind, slots=slots, points=draw(st.booleans()), outer=draw(st.sampled_from(['none', 'square', 'sum', 'nested'])),
+                x=[draw(st.sampled_from([-1.25, -.5, .5, .75, 2., 1.5])) for _ in range(3)], y=[draw(st.sampled_from([-1.25, -.5, .5, .75, 2., 1.5])) for _ in range(3)])
+
+
+def check_custom(case, rec):
+    """derivative of an expression containing a user-defined operation (with its own partial derivatives) vs finite differences of the same
+    expression evaluated with numpy formulas"""
+    from nutils import function, mesh
+    from vlib import c04custom
+    kind = case['kind']
+    x = function.Argument('x', (3,)); y = function.Argument('y', (3,))
+    x0 = numpy.array(case['x']); y0 = numpy.array(case['y'])
+    def argval(e, X, Y, S):
+        return {'x': X, 'y': Y, 'x*y': X * Y, 'x+1': X + 1, '2*x': 2 * X, 'x**2': X ** 2, 'y-x': Y - X, 'sin(x)': numpy.sin(X)}[e] * S
+    with warnings.catch_warnings(), numpy.errstate(all='ignore'):
+        warnings.simplefilter('ignore')
+        if case['points']:
+            topo, geom = mesh.line(2)
+            smp = topo.sample('gauss', 2)
+            s = geom + 1.
+            S0 = numpy.asarray(smp.eval(s))[:, None]      # (npoints, 1)
+        else:
+            smp = None; s = 1.; S0 = numpy.ones((1, 1))
+        args = [argval(e, x, y, s) for e in case['slots']]
+        f = c04custom.Op(kind, *args)
+        if case['outer'] == 'square': f = f * f
+        elif case['outer'] == 'sum': f = f + x
+        elif case['outer'] == 'nested': f = c04custom.Op('lin', f, x)
+        def ref(X, Y):
+            out = []
+            for Sp in S0:
+                v = c04custom.FORMULA[kind][0](*[argval(e, X, Y, Sp) for e in case['slots']])
+                if case['outer'] == 'square': v = v * v
+                elif case['outer'] == 'sum': v = v + X
+                elif case['outer'] == 'nested': v = 2 * v - 3 * X
+                out.append(v)
+            return numpy.array(out)      # (npoints, 3)
+        A = dict(x=x0, y=y0)
+        ev = (lambda g: numpy.asarray(smp.eval(g, arguments=A))) if smp else (lambda g: numpy.asarray(function.eval(g, arguments=A))[None])
+        try:
+            val = ev(f)
+        except Exception as e:
+            raise Violation('eval-raised', f'Custom {kind}{case["slots"]}: {type(e).__name__}: {str(e)[:200]}', where='custom:eval:' + type(e).__name__)
+        want = ref(x0, y0)
+        if not numpy.isfinite(want).all(): raise Discard('reference-nonfinite')
+        if val.shape != want.shape or abs(val - want).max() > 1e-11 * (1 + abs(want).max()):
+            raise Violation('value-mismatch', f'Custom {kind}{case["slots"]} outer={case["outer"]}: value {val.tolist()} != {want.tolist()}', where='custom:value')
+        for name, target, v0 in (('x', x, x0), ('y', y, y0)):
+            if name not in f.arguments:
+                continue
+            try:
+                d = ev(function.derivative(f, target))      # (npoints, 3, 3)
+            except Exception as e:
+                raise Violation('derivative-raised', f'd/d{name} of Custom {kind}{case["slots"]}: {type(e).__name__}: {str(e)[:200]}', where='custom:derivative:' + type(e).__name__)
+            def fd(h):
+                cols = []
+                for k in range(3):
+                    acc = 0
+                    for c, m in zip(numpy.array([-1, 9, -45, 45, -9, 1]) / 60., [-3, -2, -1, 1, 2, 3]):
+                        dv = numpy.zeros(3); dv[k] = m * h
+                        acc = acc + c * (ref(x0 + dv, y0) if name == 'x' else ref(x0, y0 + dv))
+                    cols.append(acc / h)
+                return numpy.stack(cols, axis=-1)
+            w1, w2 = fd(1e-2), fd(5e-3)
+            if abs(w1 - w2).max() > 1e-8 * (1 + abs(w1).max()):
+                raise Discard('finite-difference-not-converged')
+            if d.shape != w2.shape or abs(d - w2).max() > 1e-7 * (1 + abs(w2).max()):
+                raise Violation('derivative-mismatch', f'd/d{name} of Custom {kind}{case["slots"]} outer={case["outer"]} points={case["points"]}: nutils {d.tolist()} vs finite differences {w2.tolist()}', where='custom:derivative-mismatch')
+            rec.label('custom-derivative-checked')
+    rec.nontrivial = True
+    rec.label('custom:' + kind, *(['custom:repeated-slot'] if len(set(case['slots'])) < len(case['slots']) else []), 'custom:outer=' + case['outer'], 'custom:points=%s' % case['points'])
+
+
+SUBS = [Sub('jacobian', cases, check, {'quick': 2500, 'thorough': 25000}, weight=5, timeout=20),
+        Sub('custom', custom_cases, check_custom, {'quick': 200, 'thorough': 3000}, weight=1, timeout=60)]
 
 def _singular_det(case, v):
     """the program takes the determinant (or inverse) of a matrix that is singular at the evaluation point"""
